@@ -1,11 +1,19 @@
 import CkbVerif.Driver.Util
 import CkbVerif.Driver.C02
 import CkbVerif.Model.Freeze
+import CkbVerif.Model.FreezeCodec
 
 /-! Line-protocol driver for C10 (protocol: harness/n10/src/c10.rs): the C02 ops build the chain
-(answered exactly like the C02 driver), `freeze` / `restart` / `query` run `Model/Freeze.lean`. -/
+(answered exactly like the C02 driver), `freeze` / `restart` / `query` run `Model/Freeze.lean`.
+
+Next to the abstract model the driver runs the COMBINED model of `Model/FreezeSys.lean` (rows +
+freezer files, `pass`, `Freezer::open` at every `restart`, the accessors reading the files) with the
+concrete codec of `Model/FreezeCodec.lean` and the data-file limit of the `fzmax` op, on the same
+history; wherever the two models would answer differently the answer carries `MODEL-SPLIT` (which
+then differs from the implementation's line), so every generated history also tests, on the
+executable definitions, that the combined model refines the abstract one. -/
 namespace CkbVerif.Driver.C10
-open CkbVerif.Driver CkbVerif.Store CkbVerif.Freeze
+open CkbVerif.Driver CkbVerif.Store CkbVerif.Freeze CkbVerif.FreezeSys
 
 structure St where
   c : C02.St := {}
@@ -17,6 +25,11 @@ structure St where
   preF17 : Bool := false
   /-- model the code before the repair of F18 (`pre-f18`): part accessors read the kv rows only -/
   preF18 : Bool := false
+  /-- the freezer files of the combined model (`none` = not opened yet: a fresh directory) -/
+  top : Option FreezerTop.Top := none
+  synced : Nat := 1
+  /-- `fzmax`: data-file size limit -/
+  fzmax : Nat := 2000000000
 
 def toFS (s : St) : FS :=
   { v := s.c.v,
@@ -28,6 +41,30 @@ def toFS (s : St) : FS :=
 def fromFS (s : St) (f : FS) : St :=
   let ids := s.c.blocks.map (·.1)
   { s with noHdr := ids.filter (fun id => !f.hdr id), noBody := ids.filter (fun id => !f.body id), frozen := f.frozen }
+
+def codecOf (s : St) : Codec :=
+  -- a block of the model serialises to roughly a tenth of the bytes of the real (compressed) block
+  { Demo.demoCodec with cfg := { Demo.demoCodec.cfg with max := s.fzmax / 10 } }
+
+def freshTop : FreezerTop.Top :=
+  (FreezerTop.openTop Demo.demoCodec.cfg Freezer.emptyDisk).getD ⟨⟨1, 0, 0, []⟩, Freezer.emptyDisk, none⟩
+
+def toSys (s : St) : Sys := ⟨toFS s, s.top.getD freshTop, s.synced⟩
+
+/-- the combined model is only run for the code as it is (not for the pre-repair regression modes) -/
+def combined (s : St) : Bool := !s.preF17 && !s.preF18
+
+/-- do the accessors of the combined state (reading the files) answer like the abstract ones? -/
+def splitAt (s : St) : Bool :=
+  combined s &&
+  (let f := toFS s
+   let y := toSys s
+   let k := codecOf s
+   (s.c.blocks.map (·.1)).any (fun id =>
+      getBlockS k y id != getBlock f id || getPartS k y id != ofOpt (getPart f id) ||
+      getPackedS k y id != ofOpt (getPacked f id)) ||
+   (s.c.txs.map (·.1)).any (fun t => getTxS k y t != ofOpt (getTx f t)) ||
+   y.top.number != frozenNumber f)
 
 def flag (b : Bool) : String := if b then "1" else "0"
 
@@ -70,7 +107,8 @@ def query (s : St) : String :=
         | some (tx, _) => if tx.id = t then "=" else "!"
         | none => "-"
       some s!"t{t}:{w}"
-  " ".intercalate ([s!"frozen={frozenNumber f}", s!"tip={tip}"] ++ bs ++ ts)
+  " ".intercalate ([s!"frozen={frozenNumber f}", s!"tip={tip}"] ++ bs ++ ts ++
+    (if splitAt s then ["MODEL-SPLIT"] else []))
 
 def step (s : St) (ts : List String) : St × String :=
   match ts with
@@ -78,16 +116,39 @@ def step (s : St) (ts : List String) : St × String :=
     -- `freeze` / `freeze cold` (the harness evaluates no accessor before the pass): the same pass
     let f := toFS s
     let (f', r) := freeze f
-    let s' := fromFS s f'
+    -- the same pass on the combined state (files)
+    let (y', r') := pass (codecOf s) (toSys s) (fun _ => false)
+    let ids := s.c.blocks.map (·.1)
+    let agree := !combined s ||
+      (y'.top.number == frozenNumber f' && r' == r &&
+        ids.all (fun id => y'.rows.hdr id == f'.hdr id && y'.rows.body id == f'.body id))
+    let s' := { fromFS s f' with top := some y'.top, synced := y'.synced }
+    if !agree then (s', s!"MODEL-SPLIT {frozenNumber f'} {y'.top.number}") else
     match r with
     | .ok => (s', s!"ok {frozenNumber f'}")
     | .idle => (s', s!"ok {frozenNumber f'}")
     | .err => (s', s!"err {frozenNumber f'}")
     | .panic => (s', "panic")
-  | ["restart"] => (s, s!"ok {s.frozen.length + 1}")
+  | ["restart"] =>
+    -- `Freezer::open` of the combined model on the files as they are
+    if combined s then
+      match FreezerTop.openTop (codecOf s).cfg (toSys s).top.d with
+      | none => (s, "MODEL-SPLIT open-fails")
+      | some t =>
+        if t.number == s.frozen.length + 1 then ({ s with top := some t, synced := t.number }, s!"ok {s.frozen.length + 1}")
+        else (s, s!"MODEL-SPLIT open {t.number}")
+    else (s, s!"ok {s.frozen.length + 1}")
   | ["query"] => (s, query s)
   -- oracle-only op of the harness (crash enumeration on copies of the node directory)
   | ["crashfreeze"] => (s, "ok")
+  -- the freezer's data-file size limit (the files are C09's model; `Model/FreezeSys.lean` composes
+  -- them with this model, for every limit) and the oracle-only file-granularity crash enumeration
+  | ["fzmax", n] =>
+    match parseNat? n with
+    | some m => ({ s with fzmax := m }, "ok")
+    | none => (s, "bad-op")
+  | ["cutsnap"] => (s, "ok")
+  | "cutcheck" :: _ => (s, "ok")
   -- `limit` stream: only the threshold arithmetic is compared (31 000 empty blocks are not replayed
   -- in the model): freezer.number after a pass = min(threshold, before + MAX_FREEZE_LIMIT)
   | ["limitpass", before, thr] =>
